@@ -5,6 +5,10 @@ VERIF = os.path.dirname(os.path.dirname(os.path.abspath(__file__)))
 
 CLAIMS = {
  # id: (category, text, level_note, technique, design_ref)
+ 'C07': ('proof',
+         'Every member of util::Buffer (constructors, destructor, assignments, swap, reset, ensureWritableSize, hasWritten, append, hasRead, hasReadAll, fetch, shrink, cloneFrom) is under a CBMC function contract: representation invariant, abstract FIFO effect on (readable size, tracked byte at an arbitrary offset), frame, and memory safety for all sizes < 2^40. The FIFO property for every operation mix follows by induction over the history.',
+         'Trusted: clang-AST->C printer, CBMC+SAT, weak memcpy/memmove models (weaker than libc), allocator never fails; induction over histories is a paper step.',
+         'CBMC function contracts (goto-instrument --dfcc) on mechanically extracted C', '6 C07'),
  'C19': ('proof',
          'Per-function CBMC contracts and loop-free/complete-unwinding lemmas on the C re-printed from the real codec sources: size functions, frames (no write beyond capacity, no read outside input), exact inverse on every value, CRC/checksum/MD5/AES equal to reference definitions written from the standards.',
          'Trusted: clang-AST->C printer, CBMC+SAT, allocator never fails, libc models; std::string/vector overloads only through their shared loops; see evidence.assumptions.',
